@@ -15,7 +15,9 @@ RULE = ("(a) random Node trees (all byte values, string / non-string / non-ASCII
         "call) compared with an independent reference of the substitution rule; identity trees must flatten to their root "
         "value; query.squash_replace compared with flatten where the rule never skips an overlapping child. (b) every node of "
         "scan results of the default registry over layered / indicator / cmd / mutated-literal inputs; results in which "
-        "nothing is decoded must flatten to the input. distinct_nontrivial = distinct trees (sha1 of canonical form) in "
+        "nothing is decoded must flatten to the input; trees scanned with a small depth limit are flattened, expanded further with "
+        "scan_node and flattened again; inputs that are plain BY CONSTRUCTION (nested contexts around plain indicators) must "
+        "flatten to themselves whatever the tree claims. distinct_nontrivial = distinct trees (sha1 of canonical form) in "
         "which flatten substituted at least one child.")
 ASSUMPTIONS = ["nodes whose children are out of bounds or not ordered by start are outside the property's domain and only counted",
                "RecursionError on trees deeper than ~1000 is C01's finding"]
